@@ -1,6 +1,7 @@
 package main
 
 import (
+	"go/token"
 	"go/types"
 	"strings"
 
@@ -587,7 +588,7 @@ func (c *Check) minShape(fn *ssa.Function, n ssa.Value) {
 		var quo *ssa.Call
 		hdIdx := -1
 		for i, e := range ph.Edges {
-			if p, isP := e.(*ssa.Parameter); isP && p.Name() == "heightDelta" {
+			if p, isP := e.(*ssa.Parameter); isP && paramName(p) == "heightDelta" {
 				hd = p
 				hdIdx = i
 			}
@@ -616,26 +617,79 @@ func (c *Check) minShape(fn *ssa.Function, n ssa.Value) {
 		}
 	}
 	c.Ob("R4", fn.Name()+": blocks charged = min(elapsed, affordable)", fn.Pos(), ok, detail)
-	// overdrawn flag
-	okf := false
-	for _, r := range successReturns(fn) {
-		for _, res := range r.Results {
-			if ph, isPhi := res.(*ssa.Phi); isPhi && types.Identical(ph.Type(), types.Typ[types.Bool]) && len(ph.Edges) == 2 {
-				for i, e := range ph.Edges {
-					if k, isK := e.(*ssa.Const); isK && k.Value != nil && k.Value.ExactString() == "false" {
-						pred := ph.Block().Preds[i]
-						for _, a := range append(factsAt(pred), factsAtSelf(pred)...) {
-							if a.Op == "true" {
-								if g, _ := callOf(a.X); g != nil && calleeMethod(g) == "Equal" && g.Call.Args[0] == n && Sym(g.Call.Args[1]) == "p:heightDelta" {
-									okf = true
-								}
-							}
-						}
+	// overdrawn flag: whenever the returned flag is false, blocksCharged.Equal(elapsed) holds
+	isEq := func(v ssa.Value) bool {
+		g, _ := callOf(v)
+		if g == nil || calleeMethod(g) != "Equal" || len(g.Call.Args) != 2 {
+			return false
+		}
+		a0, a1 := g.Call.Args[0], g.Call.Args[1]
+		return (a0 == n && Sym(a1) == "p:heightDelta") || (a1 == n && Sym(a0) == "p:heightDelta")
+	}
+	var falseImpliesEq func(v ssa.Value, blk *ssa.BasicBlock, seen map[ssa.Value]bool) bool
+	falseImpliesEq = func(v ssa.Value, blk *ssa.BasicBlock, seen map[ssa.Value]bool) bool {
+		if seen[v] {
+			return true
+		}
+		seen[v] = true
+		switch x := v.(type) {
+		case *ssa.Const:
+			if x.Value != nil && x.Value.ExactString() == "true" {
+				return true
+			}
+			if x.Value != nil && x.Value.ExactString() == "false" {
+				for _, a := range factsAt(blk) {
+					if a.Op == "true" && isEq(a.X) {
+						return true
 					}
 				}
+				// the edge out of blk itself may be the deciding one
+				if ifi, isIf := blk.Instrs[len(blk.Instrs)-1].(*ssa.If); isIf && isEq(ifi.Cond) {
+					return true // refined below by edge direction in the phi case
+				}
+			}
+			return false
+		case *ssa.UnOp:
+			if x.Op == token.NOT {
+				return isEq(x.X)
+			}
+		case *ssa.Phi:
+			for i, e := range x.Edges {
+				pred := x.Block().Preds[i]
+				if k, isK := e.(*ssa.Const); isK && k.Value != nil && k.Value.ExactString() == "false" {
+					okEdge := false
+					for _, a := range factsAt(pred) {
+						if a.Op == "true" && isEq(a.X) {
+							okEdge = true
+						}
+					}
+					if ifi, isIf := pred.Instrs[len(pred.Instrs)-1].(*ssa.If); isIf && isEq(ifi.Cond) && pred.Succs[0] == x.Block() && pred.Succs[1] != x.Block() {
+						okEdge = true
+					}
+					if !okEdge {
+						return false
+					}
+					continue
+				}
+				if !falseImpliesEq(e, pred, seen) {
+					return false
+				}
+			}
+			return true
+		}
+		return false
+	}
+	okf := false
+	nflag := 0
+	for _, r := range successReturns(fn) {
+		for _, res := range r.Results {
+			if types.Identical(res.Type(), types.Typ[types.Bool]) {
+				nflag++
+				okf = falseImpliesEq(res, r.Block(), map[ssa.Value]bool{})
 			}
 		}
 	}
+	okf = okf && nflag == 1
 	c.Ob("R4", fn.Name()+": not-overdrawn only when all elapsed blocks were charged", fn.Pos(), okf, "overdrawn flag is not derived from blocksCharged == elapsed")
 }
 
